@@ -109,6 +109,62 @@ Drift(r) ==
        ELSE IF m.r = "ok" /\ m.v # r.res.v THEN "DRIFT"
        ELSE "conforms"
 
+\* ------------------------------------------------------------------ events
+(* Which of the rare situations of the limb algorithms a record exercises,     *)
+(* computed from the operands alone (a function of the specification, not of   *)
+(* the implementation's answer).  The driver counts them over the corpus: an   *)
+(* event that never occurs means the corresponding branch of the algorithm was *)
+(* never exercised by the records that were validated.                         *)
+AllOnes(x) == x = LimbMax
+Events(r) ==
+  LET nx == Len(r.x)  ny == Len(r.y)
+      tag(c, t) == IF c THEN <<t>> ELSE <<>>
+  IN
+  CASE r.op = "small_add" ->
+         LET rip == FoldLeft(LAMBDA acc, k: IF acc = k - 1 /\ (IF k = 1 THEN Cmp(Add(r.x[1], r.y[1]), Pow2(LBITS)) >= 0 ELSE AllOnes(r.x[k])) THEN k ELSE acc, 0, Idx(nx))
+         IN tag(nx = 0, "sa:empty") \o tag(nx > 0 /\ rip = 0, "sa:no-carry") \o tag(rip > 0 /\ rip < nx, "sa:ripple-stops")
+            \o tag(nx > 0 /\ rip = nx, "sa:carry-into-new-limb") \o tag(rip >= 3, "sa:ripple>=3") \o tag(r.y[1] = <<>>, "sa:zero-addend")
+    [] r.op = "small_mul" ->
+         tag(nx = 0, "sm:empty") \o tag(r.y[1] = <<>>, "sm:by-zero") \o tag(r.y[1] = <<1>>, "sm:by-one")
+         \o tag(nx > 0 /\ BitLen(Mul(ValueOfVec(r.x), r.y[1])) > LBITS * nx, "sm:carry-into-new-limb")
+         \o tag(nx > 0 /\ BitLen(Mul(ValueOfVec(r.x), r.y[1])) <= LBITS * nx /\ r.y[1] # <<>>, "sm:no-new-limb")
+         \o tag(\E k \in 1..nx : r.x[k] = <<>>, "sm:zero-limb-inside")
+    [] r.op \in {"large_add_from", "large_add"} ->
+         LET st == IF r.op = "large_add" THEN 0 ELSE r.n
+             sum == Add(ValueOfVec(r.x), Shl(ValueOfVec(r.y), LBITS * st))
+             span == Max2(nx, ny + st)
+         IN tag(ny > Max2(nx - st, 0), "laf:resize") \o tag(ny <= Max2(nx - st, 0), "laf:no-resize") \o tag(st > nx, "laf:gap-below-start")
+            \o tag(BitLen(sum) > LBITS * span, "laf:final-carry-new-limb") \o tag(st = 0, "laf:start0") \o tag(st > 0, "laf:offset")
+            \o tag(ny + st = nx /\ BitLen(sum) <= LBITS * span, "laf:same-top-no-carry")
+    [] r.op \in {"long_mul", "large_mul", "mul_assign", "bigint_mul_assign"} ->
+         tag(ny = 1, "mul:single-limb-y") \o tag(ny >= 2 /\ \E k \in 2..ny : r.y[k] = <<>>, "mul:zero-limb-in-y")
+         \o tag(ny >= 1 /\ r.y[1] = <<>>, "mul:y0-zero") \o tag(nx >= 2 /\ \E k \in 1..nx : r.x[k] = <<>>, "mul:zero-limb-in-x")
+         \o tag(nx + ny = CAP + 1, "mul:lengths-sum-cap+1") \o tag(nx + ny = CAP, "mul:lengths-sum-cap")
+         \o tag(nx > 0 /\ ny > 0 /\ BitLen(Mul(ValueOfVec(r.x), ValueOfVec(r.y))) <= LBITS * (nx + ny - 1), "mul:product-one-limb-short")
+         \o tag(nx = 0 \/ ny = 0, "mul:empty-operand")
+    [] r.op \in {"pow5", "bigint_pow5", "bigint_pow10"} ->
+         LET nl == IF NoLargeStep THEN 0 ELSE r.n \div LargeStep
+             e1 == r.n - nl * LargeStep
+         IN tag(r.n = 0, "pow:zero") \o tag(nl = 0, "pow:large0") \o tag(nl = 1, "pow:large1") \o tag(nl >= 2, "pow:large>=2")
+            \o tag(e1 \div SmallStep = 0, "pow:small0") \o tag(e1 \div SmallStep >= 2, "pow:small>=2") \o tag(e1 % SmallStep = 0, "pow:no-remainder")
+            \o tag(r.n > 0 /\ r.n % LargeStep = 0, "pow:exact-multiple-of-large") \o tag(nx = 1, "pow:single-limb-x")
+    [] r.op \in {"shl", "bigint_pow2"} ->
+         tag(r.n % LBITS = 0 /\ r.n > 0, "shl:whole-limbs") \o tag(r.n % LBITS # 0 /\ r.n < LBITS, "shl:bits-only") \o tag(r.n % LBITS # 0 /\ r.n >= LBITS, "shl:bits+limbs")
+         \o tag(r.n = 0, "shl:zero") \o tag(nx > 0 /\ r.n % LBITS # 0 /\ BitLen(r.x[nx]) + (r.n % LBITS) > LBITS, "shl:carry-out-of-top")
+    [] r.op = "shl_bits" -> tag(nx > 0 /\ BitLen(r.x[nx]) + r.n > LBITS, "shlb:carry-out") \o tag(nx > 0 /\ BitLen(r.x[nx]) + r.n <= LBITS, "shlb:no-carry")
+    [] r.op = "shl_limbs" -> tag(r.n + nx > CAP, "shll:beyond-cap") \o tag(r.n + nx = CAP, "shll:exactly-cap") \o tag(nx = 0, "shll:empty")
+    [] r.op = "hi64" ->
+         tag(nx = 0, "hi:len0") \o tag(nx = 1, "hi:len1") \o tag(nx = 2, "hi:len2") \o tag(nx >= 3, "hi:len>=3")
+         \o tag(nx >= 1 /\ BitLen(r.x[nx]) = LBITS, "hi:top-aligned")
+         \o tag(nx >= 3 /\ (\E k \in 1..(nx - 2) : r.x[k] # <<>>) /\ (LET ls == LBITS - BitLen(r.x[nx]) IN ModPow2(Shl(r.x[nx - 1], ls), LBITS) = <<>>), "hi:sticky-only-deep")
+         \o tag(nx >= 3 /\ (\A k \in 1..(nx - 2) : r.x[k] = <<>>), "hi:nothing-deep")
+    [] r.op = "compare" ->
+         tag(nx # ny, "cmp:lengths-differ") \o tag(nx = ny /\ r.x = r.y, "cmp:equal")
+         \o tag(nx = ny /\ nx > 0 /\ r.x # r.y /\ r.x[nx] # r.y[nx], "cmp:top-limb-differs")
+         \o tag(nx = ny /\ nx > 1 /\ r.x # r.y /\ r.x[nx] = r.y[nx], "cmp:deeper-limb-differs")
+    [] r.op = "normalize" -> tag(Normalized(r.x), "norm:nothing") \o tag(~Normalized(r.x) /\ nx >= 2 /\ r.x[nx - 1] = <<>>, "norm:two-or-more") \o tag(\A k \in 1..nx : r.x[k] = <<>>, "norm:to-empty")
+    [] OTHER -> <<>>
+
 Init == i \in 1..N /\ pc = "start" /\ verdict = "none" /\ trail = <<>>
 
 JudgeOp ==
@@ -120,7 +176,7 @@ JudgeOp ==
 
 Finish ==
   /\ pc = "report"
-  /\ PrintT("VP|" \o ToJson([id |-> Recs[i].id, verdict |-> verdict, trail |-> trail]))
+  /\ PrintT("VP|" \o ToJson([id |-> Recs[i].id, verdict |-> verdict, trail |-> trail, ev |-> Events(Recs[i])]))
   /\ pc' = "done" /\ UNCHANGED <<i, verdict, trail>>
 
 Next == JudgeOp \/ Finish
